@@ -4,7 +4,8 @@
 (*   {id, act: "pair", a, b, r: {op: value}, py: {op: value}}               *)
 (*   {id, act: "unary", a, r: {pos, neg}}                                   *)
 (*   {id, act: "triple", lt: [[..],[..],[..]]}                              *)
-EXTENDS Scalars, Json, IOUtils
+(*   {id, act: "math", fn, args: [values], r: value}      (Math.tla)        *)
+EXTENDS Math, Json, IOUtils
 
 TraceLog == ndJsonDeserialize(IOEnv.TRACE_FILE)
 VARIABLE pos
@@ -13,6 +14,7 @@ Verdict(e) ==
     CASE e.act = "pair"   -> PairVerdict(e.a, e.b, e.r, e.py)
       [] e.act = "unary"  -> UnaryVerdict(e.a, e.r)
       [] e.act = "triple" -> TripleVerdict(e.lt)
+      [] e.act = "math"   -> MathVerdict(e.fn, e.args, e.r)
 
 Init == pos = 1
 Next == /\ pos <= Len(TraceLog)
